@@ -1320,7 +1320,11 @@ func TestVerifC01Lab(t *testing.T) {
 			b := fmt.Sprintf("(mk_labobs %s %s %s %s %d %s %s %s %s)", vC01Bool(cd), vC01Bool(do), vC01Bool(ad), vC01Bool(ed), m.Rcode,
 				vC01Bool(m.AuthenticatedData), vC01Bool(vC01HasEDE(m)), vC01Bool(dataOK), vC01Bool(tz.secure))
 			goFail := ""
-			if !cd && tz.secure && m.Rcode != dns.RcodeServerFailure && !dataOK {
+			// a name inside a VALIDATED Opt-Out span (here: every name the Opt-Out zone does not hold — all its NSEC3 records
+			// carry the flag) may be an unsigned delegation the chain leaves out (RFC 5155 §6): provenInsecureDelegation's DS
+			// probe for it comes back with that signed, verified span, which IS the validated proof that no usable DS exists —
+			// "chain secure" is false for such a name, an unauthenticated reply WITHOUT AD is allowed; AD on it stays forbidden
+			if !cd && tz.secure && !adOptional && m.Rcode != dns.RcodeServerFailure && !dataOK {
 				goFail = "altered data served to a validating client for a name under a signed chain"
 			}
 			// "missing its denial proof -> SERVFAIL": under a chain signed up to the anchor a denial reaches a validating
